@@ -2,6 +2,7 @@ package main
 
 import (
 	"os"
+	"strings"
 
 	"github.com/berquerant/crd/input/ast"
 	"github.com/berquerant/crd/op"
@@ -227,18 +228,25 @@ func VerifC12KeyListOutput() {
 	vf.Reach("end")
 }
 
+// verifStale: an earlier, much longer result left in the -o file.
+func verifStale() string { return strings.Repeat("- old: line\n", 400) }
+
 // VerifC12IOPaths: `text parse` prints the same bytes whether the text comes from FILE, from
 // stdin or from `-`, and whether the result goes to stdout or to the -o file.
 func VerifC12IOPaths() {
 	in, out := vf.TempPath("io-in.txt"), vf.TempPath("io-out.yml")
 	verifReset(in, out)
 	defer verifReset(in, out)
-	text := []string{"C[1] Dm_7/F[2,1/2]{txt=hi} R[1]\n", "4[1]  ; comment\n2b_m7[3/4]", "C[", ""}[vf.NondetIntRange("text", 0, 3)]
+	text := []string{"C[1] D_m7/F[2,1/2]{txt=hi} R[1]\n", "4[1]  ; comment\n2b_m7[3/4]", "C[", ""}[vf.NondetIntRange("text", 0, 3)]
 	os.WriteFile(in, []byte(text), 0o644)
 	run := func(args []string, useStdin bool, toFile bool) (string, error) {
 		flags := []string{"--output", ""}
 		if toFile {
 			os.Remove(out)
+			if vf.NondetIntRange("stale-output-file", 0, 1) == 1 {
+				// the -o file already holds a (longer) result of an earlier run
+				os.WriteFile(out, []byte(verifStale()), 0o644)
+			}
 			flags = []string{"--output", out}
 		}
 		if err := textCmdParse.ParseFlags(flags); err != nil {
@@ -258,6 +266,10 @@ func VerifC12IOPaths() {
 			b, _ := os.ReadFile(out)
 			if printed != "" {
 				return "stdout-not-empty:" + printed, err
+			}
+			if err != nil && string(b) == verifStale() {
+				// a failing command may leave an earlier result file untouched: it wrote no result
+				return "", err
 			}
 			return string(b), err
 		}
@@ -500,5 +512,55 @@ func VerifC09InfoCommands() {
 		vf.Assert("a-successful-command-prints-its-result", printed != "")
 		vf.Reach("printed")
 	}
+	vf.Reach("end")
+}
+
+// VerifC07BPMFlag: every --bpm value other than 0 becomes the first instance's tempo, whatever
+// that instance itself says; 0 (the flag's "not given") leaves it alone. The flag text is 1–3
+// symbolic decimal digits, so no particular value can serve as a hidden "unset" sentinel.
+func VerifC07BPMFlag() {
+	in := vf.TempPath("bpmflag-in.yml")
+	verifReset(in)
+	defer verifReset(in)
+	own := []uint{0, 90, 100, 7}[vf.NondetIntRange("own", 0, 3)]
+	doc := verifDoc("m7")
+	switch own {
+	case 0:
+		doc = strings.Replace(doc, "  bpm: 90\n", "", 1)
+	case 100:
+		doc = strings.Replace(doc, "  bpm: 90\n", "  bpm: 100\n", 1)
+	case 7:
+		doc = strings.Replace(doc, "  bpm: 90\n", "  bpm: 7\n", 1)
+	}
+	os.WriteFile(in, []byte(doc), 0o644)
+	n := vf.NondetIntRange("digits", 1, vf.Param("C07.bpmDigits", 3))
+	txt := vf.NondetString("bpm", n)
+	var want uint
+	for i := 0; i < n; i++ {
+		vf.Assume('0' <= txt[i] && txt[i] <= '9')
+		want = want*10 + uint(txt[i]-'0')
+	}
+	vf.Assume(n == 1 || txt[0] != '0') // a leading 0 would make pflag read octal
+	perr := writeCmd.ParseFlags([]string{"--bpm", txt})
+	vf.Assert("flag-parses", perr == nil)
+	got, err := newWriteCmdArgs(writeCmd, []string{in})
+	vf.Assert("document-loads", err == nil && got != nil && len(got.instances) == 3)
+	if err != nil || got == nil {
+		return
+	}
+	f := got.instances[0]
+	// the tempo the file starts with: the instance's if it has one, else the default 100
+	eff := uint(100)
+	if f.BPM != nil {
+		eff = uint(*f.BPM)
+	}
+	if want == 0 {
+		vf.Reach("flag-absent")
+		vf.Assert("no-flag-keeps-the-instance-tempo", eff == map[bool]uint{true: 100, false: own}[own == 0])
+	} else {
+		vf.Reach("flag-given")
+		vf.Assert("bpm-flag-overrides-the-first-instance-tempo", eff == want)
+	}
+	vf.Assert("later-instances-keep-their-own", got.instances[1].BPM == nil && got.instances[2].BPM == nil)
 	vf.Reach("end")
 }
